@@ -51,16 +51,23 @@ namespace ikos {
 
 /* Notes about the % operator
  *
- * The semantics of r = n % d is to set r to "n mod d". The sign of
- * the d is ignored and r is always non-negative.
+ * The semantics of r = n % d is the remainder of the truncated
+ * division (e.g., mpz_tdiv_r if Number is z_number): the sign of d is
+ * ignored and r has the sign of n. Thus, r can be negative.
  *
  * We assume that n % d (also n /d) raises a runtime error if d==0.
  */
 
 template <typename Number> void congruence<Number>::normalize(void) {
-  // Set to standard form: 0 <= b < a for a != 0
+  // Set to standard form: a >= 0 and 0 <= b < a for a != 0
+  if (m_a < 0) {
+    m_a = -m_a;
+  }
   if (m_a != 0) {
     m_b = m_b % m_a;
+    if (m_b < 0) {
+      m_b = m_b + m_a;
+    }
   }
 }
 
@@ -178,16 +185,15 @@ bool congruence<Number>::operator<=(const congruence<Number> &o) const {
     return false;
   } else if (m_a == 0 && o.m_a == 0) {
     return (m_b == o.m_b);
-  } else if (m_a == 0) {
-    if ((m_b % o.m_a) == (o.m_b % o.m_a)) {
-      return true;
-    }
   } else if (o.m_a == 0) {
-    if (m_b % m_a == (o.m_b % m_a)) {
-      return false;
-    }
+    // aZ+b with a != 0 is an infinite set
+    return false;
+  } else {
+    // pre: o.a != 0
+    // b \in a'Z+b' and a'|a. Note that m_b can be negative if a == 0
+    // and % returns a remainder with the sign of the dividend.
+    return (m_a % o.m_a == 0) && ((m_b - o.m_b) % o.m_a == 0);
   }
-  return (m_a % o.m_a == 0) && (m_b % o.m_a == o.m_b % o.m_a);
 }
 
 template <typename Number>
@@ -237,13 +243,26 @@ congruence<Number>::operator&(const congruence<Number> &o) const {
   } else {
     // pre: a and o.a != 0
     Number x = gcd(m_a, o.m_a);
-    if (m_b % x == (o.m_b % x)) {
-      // the part max(b,o.b) needs to be verified. What we really
-      // want is to find b'' such that
-      // 1) b'' % lcm(a,a') == b  % lcm(a,a'), and
-      // 2) b'' % lcm(a,a') == b' % lcm(a,a').
-      // An algorithm for that is provided in Granger'89.
-      return congruence<Number>(lcm(m_a, o.m_a), max(m_b, o.m_b));
+    if ((o.m_b - m_b) % x == 0) {
+      // The meet is lcm(a,a')Z + b'' where b'' is such that
+      // 1) b'' % a  == b  % a, and
+      // 2) b'' % a' == b' % a'.
+      // That is, b'' = b + a*t where a*t = b'-b (mod a').  We use the
+      // extended Euclidean algorithm to compute s such that
+      // a*s = gcd(a,a') (mod a'), and then t = ((b'-b)/gcd(a,a'))*s.
+      Number r0(m_a), r1(o.m_a), s0(1), s1(0);
+      while (r1 != 0) {
+        Number q = r0 / r1;
+        Number r2 = r0 - (q * r1);
+        Number s2 = s0 - (q * s1);
+        r0 = r1;
+        r1 = r2;
+        s0 = s1;
+        s1 = s2;
+      }
+      // r0 == x
+      Number t = ((o.m_b - m_b) / x) * s0;
+      return congruence<Number>(lcm(m_a, o.m_a), m_b + (m_a * t));
     } else {
       return congruence<Number>::bottom();
     }
